@@ -60,24 +60,65 @@ def _exc(e):
 #                                  rhs = ('pw', a, c, b) lhs = Piecewise((a, c > 0), (b, True))
 #             | ('ODE',)           one compartment CENTRAL, Bolus(AMT), output rate CL/V
 #                                  (reads CL, V, AMT, t; defines A_CENTRAL(t))
+#             | ('ODE', spec)      the same system with the attributes spec = ((role, symbol), ...) set:
+#                                    dose    the dose into CENTRAL is Bolus(symbol) instead of Bolus(AMT)
+#                                    lag     lag time of CENTRAL            bio   bioavailability of CENTRAL
+#                                    input   zero-order input of CENTRAL    rate  the output rate is the symbol
+#                                    q       rate of the flows CENTRAL -> PERI and PERI -> CENTRAL (default Q)
+#                                    pdose   a second dose Bolus(symbol, admid=2) into PERI (default AMT, present
+#                                            only together with plag / pbio)
+#                                    plag / pbio / pinput   lag time, bioavailability, zero-order input of PERI
+#                                  (a second compartment PERI exists iff one of q, pdose, plag, pbio, pinput is
+#                                  given).  The system reads every symbol of its rates, doses, inputs, lag times and
+#                                  bioavailabilities and t; it defines A_CENTRAL(t).
 #
 # A symbol that is read before any assignment to it is an INPUT (data column / parameter / random
 # variable of that name); X, P, E are never assigned and therefore always inputs.
 
 ACENT = 'A_CENTRAL'
-_ORDER = ('X', 'P', 'E', 'A', 'B', 'C', 'Y', 'CL', 'V', 'AMT', 't', 'Z', ACENT)
+ACENTX = 'A_CENTRALX'     # a second amount function, only used as the value of substitutions
+_ORDER = ('X', 'P', 'E', 'A', 'B', 'C', 'Y', 'CL', 'V', 'AMT', 't', 'Z', ACENT, 'S', 'T', 'Q', ACENTX)
 _BASE = 1000
 # value of input number k is BASE**k: the value of a sum of inputs encodes its coefficient vector
 ENV0 = {name: _BASE ** k for k, name in enumerate(_ORDER)}
+
+ODE_ROLES = ('dose', 'lag', 'bio', 'input', 'rate', 'q', 'pdose', 'plag', 'pbio', 'pinput')
+_PERI_ROLES = ('q', 'pdose', 'plag', 'pbio', 'pinput')
+# coefficient of each thing the ODE system reads in its (fixed, linear) reference value
+_ODE_COEF = {'CL': 7, 'V': 13, 'AMT': 1, 't': 1, 'dose': 23, 'lag': 17, 'bio': 19, 'input': 29, 'rate': 31,
+             'q': 37, 'pdose': 59, 'plag': 41, 'pbio': 43, 'pinput': 47}
 
 
 def _is_ode(stmt):
     return stmt[0] == 'ODE'
 
 
+def _ode_spec(stmt):
+    return dict(stmt[1]) if len(stmt) > 1 else {}
+
+
+def _ode_terms(stmt):
+    """reference model of an ODE statement: (symbol, coefficient) for everything the system reads"""
+    spec = _ode_spec(stmt)
+    terms = [(spec['rate'], _ODE_COEF['rate'])] if 'rate' in spec else [('CL', _ODE_COEF['CL']), ('V', _ODE_COEF['V'])]
+    terms.append((spec['dose'], _ODE_COEF['dose']) if 'dose' in spec else ('AMT', _ODE_COEF['AMT']))
+    terms.append(('t', _ODE_COEF['t']))
+    for role in ('lag', 'bio', 'input'):
+        if role in spec:
+            terms.append((spec[role], _ODE_COEF[role]))
+    if any(r in spec for r in _PERI_ROLES):
+        terms.append((spec.get('q', 'Q'), _ODE_COEF['q']))
+        if any(r in spec for r in ('pdose', 'plag', 'pbio')):
+            terms.append((spec.get('pdose', 'AMT'), _ODE_COEF['pdose']))
+        for role in ('plag', 'pbio', 'pinput'):
+            if role in spec:
+                terms.append((spec[role], _ODE_COEF[role]))
+    return terms
+
+
 def _reads(stmt):
     if _is_ode(stmt):
-        return ('CL', 'V', 'AMT', 't')
+        return tuple(s for s, _ in _ode_terms(stmt))
     rhs = stmt[1]
     if rhs[0] == 'pw':
         return (rhs[1], rhs[2], rhs[3])
@@ -92,7 +133,7 @@ def _eval(stmt, env):
     """reference semantics of one statement (the ODE is modelled by a fixed injective-ish linear
     function of what it reads; only used to detect that an input of the ODE changed)"""
     if _is_ode(stmt):
-        return 7 * env['CL'] + 13 * env['V'] + env['AMT'] + env['t']
+        return sum(c * env[s] for s, c in _ode_terms(stmt))
     rhs = stmt[1]
     if rhs[0] == 'pw':
         return env[rhs[1]] if env[rhs[2]] > 0 else env[rhs[3]]
@@ -167,22 +208,45 @@ def _sym(name):
         px = _px()
         if name == ACENT:
             e = _ode().amounts[0]
+        elif name == ACENTX:
+            e = px['Expr'].function(ACENTX, 't')
         else:
             e = px['Expr'].symbol(name)
         _SYM[name] = e
     return e
 
 
-def _ode():
-    cs = _STMT.get(('ODE',))
+def _ode(stmt=('ODE',)):
+    cs = _STMT.get(stmt)
     if cs is None:
         px = _px()
+        S = px['Expr'].symbol
+        spec = _ode_spec(stmt)
         cb = px['Builder']()
-        central = px['Compartment'].create('CENTRAL', doses=(px['Bolus'].create('AMT'),))
+        if not spec:
+            central = px['Compartment'].create('CENTRAL', doses=(px['Bolus'].create('AMT'),))
+        else:
+            central = px['Compartment'].create(
+                'CENTRAL', doses=(px['Bolus'].create(S(spec.get('dose', 'AMT'))),),
+                input=S(spec['input']) if 'input' in spec else 0,
+                lag_time=S(spec['lag']) if 'lag' in spec else 0,
+                bioavailability=S(spec['bio']) if 'bio' in spec else 1)
         cb.add_compartment(central)
-        cb.add_flow(central, px['output'], px['Expr'].symbol('CL') / px['Expr'].symbol('V'))
+        cb.add_flow(central, px['output'], S(spec['rate']) if 'rate' in spec else S('CL') / S('V'))
+        if any(r in spec for r in _PERI_ROLES):
+            doses = ()
+            if any(r in spec for r in ('pdose', 'plag', 'pbio')):
+                doses = (px['Bolus'].create(S(spec.get('pdose', 'AMT')), admid=2),)
+            peri = px['Compartment'].create(
+                'PERI', doses=doses,
+                input=S(spec['pinput']) if 'pinput' in spec else 0,
+                lag_time=S(spec['plag']) if 'plag' in spec else 0,
+                bioavailability=S(spec['pbio']) if 'pbio' in spec else 1)
+            cb.add_compartment(peri)
+            cb.add_flow(central, peri, S(spec.get('q', 'Q')))
+            cb.add_flow(peri, central, S(spec.get('q', 'Q')))
         cs = px['CompartmentalSystem'](cb)
-        _STMT[('ODE',)] = cs
+        _STMT[stmt] = cs
     return cs
 
 
@@ -200,7 +264,7 @@ def _mk(stmt):
     o = _STMT.get(stmt)
     if o is None:
         if _is_ode(stmt):
-            return _ode()
+            return _ode(stmt)
         o = _px()['Assignment'].create(_sym(stmt[0]), _rhs_expr(stmt[1]))
         _STMT[stmt] = o
     return o
@@ -211,18 +275,27 @@ def _names(exprs):
 
 
 def _envx(env, names=None):
-    return {_sym(k): v for k, v in env.items() if k != ACENT and (names is None or k in names)}
+    return {_sym(k): v for k, v in env.items() if k not in (ACENT, ACENTX) and (names is None or k in names)}
 
 
 def _tup(prog):
     """json (lists) -> program (tuples)"""
-    return tuple(('ODE',) if s[0] == 'ODE' else (s[0], tuple(s[1])) for s in prog)
+    return tuple((('ODE',) if len(s) == 1 else ('ODE', tuple((r, v) for r, v in s[1]))) if s[0] == 'ODE'
+                 else (s[0], tuple(s[1])) for s in prog)
+
+
+def _untup(prog):
+    """program (tuples) -> json (lists)"""
+    return [(['ODE'] if len(s) == 1 else ['ODE', [list(p) for p in s[1]]]) if _is_ode(s) else [s[0], list(s[1])]
+            for s in prog]
 
 
 def _show(prog):
     out = []
     for s in prog:
-        if _is_ode(s):
+        if _is_ode(s) and len(s) > 1:
+            out.append('<ODE CENTRAL -CL/V->> with ' + ', '.join(f'{r}={v}' for r, v in s[1]) + '>')
+        elif _is_ode(s):
             out.append('<ODE CENTRAL -CL/V->>')
         elif s[1][0] == 'pw':
             out.append(f'{s[0]}=PW({s[1][1]} if {s[1][2]}>0 else {s[1][3]})')
@@ -292,6 +365,14 @@ CL_RSD_FRAME = 'remove_symbol_definitions removes only earlier definitions of th
 CL_RSD_EFFECT = 'remove_symbol_definitions removes the earlier definitions of a named symbol that no remaining statement reads'
 CL_RSD_ERR = 'remove_symbol_definitions raises no internal error'
 CL_IMMUT = 'queries and edits leave the original Statements object unchanged'
+CL_DD_SUP = ('direct_dependencies(s) contains the reaching definition of every symbol and compartment amount that s '
+             'reads (for an ODE system: every symbol of its rates, doses, inputs, lag times and bioavailabilities)')
+CL_DD_FRAME = 'direct_dependencies(s) lists only earlier statements defining something s reads, each once, in statement order'
+CL_DD_ERR = 'direct_dependencies raises no internal error'
+CL_SUBS_FUNC = ('subs with an applied function (compartment amount A_X(t)) as key replaces it in every statement that '
+                'contains it and changes nothing else')
+CL_SUBS_EXPR = ('subs with a compound expression as key replaces the right hand sides equal to that expression and '
+                'changes nothing else')
 CL_SPLIT = 'before_odes + ode_system + after_odes is the statement list'
 
 
@@ -544,6 +625,37 @@ def _check_program(prog, level='full'):
     if level == 'core':
         return F.items
 
+    # ---- direct_dependencies -------------------------------------------------------------------
+    for k in range(n):
+        if prog.index(prog[k]) != k:
+            continue  # a statement is identified by value: the first equal one
+        what = f'direct_dependencies(statement #{k} ({_show([prog[k]])}))'
+        try:
+            dd = list(st.direct_dependencies(objs[k]))
+        except Exception as e:
+            F.add('direct_dependencies', CL_DD_ERR, f'{what} raised {_exc(e)}')
+            continue
+        rd = set(_reads(prog[k]))
+        missing = [d for d in sorted({d for d in reach[k].values() if d is not None}) if objs[d] not in dd]
+        if missing:
+            F.add('direct_dependencies', CL_DD_SUP,
+                  f'{what} = {[repr(x) for x in dd]} misses statement(s) {missing} '
+                  f'({_show([prog[d] for d in missing])})')
+        # the result as a subsequence of the earlier statements that define something the statement reads
+        allowed = [j for j in range(k) if _writes(prog[j]) in rd]
+        pos = 0
+        ok = True
+        for x in dd:
+            while pos < len(allowed) and objs[allowed[pos]] != x:
+                pos += 1
+            if pos == len(allowed):
+                ok = False
+                break
+            pos += 1
+        if not ok:
+            F.add('direct_dependencies', CL_DD_FRAME,
+                  f'{what} = {[repr(x) for x in dd]}; the earlier statements defining something it reads are {allowed}')
+
     # ---- reassign ----------------------------------------------------------------------------
     for name in sorted(set(assigned) | {'A'}):
         if name == ACENT:
@@ -616,6 +728,53 @@ def _check_program(prog, level='full'):
         except Exception as e:
             F.add('subs', CL_SUBS_VAL, f'subs({{X: P+E}}) raised {_exc(e)}')
 
+    # keys that are not symbols: the amount function, a compound expression.  The expected result is the
+    # statementwise edit written down on the program representation (the ODE system: same compartments, the
+    # amount function replaced, nothing else)
+    def subs_check(clause, label, mapping, want, ode_amount):
+        try:
+            res = st.subs(mapping)
+            ok = len(res) == n
+            bad = None
+            for i in range(n):
+                if not ok:
+                    break
+                if _is_ode(prog[i]):
+                    if ode_amount is None:
+                        ok = res[i] == objs[i]
+                    else:
+                        ok = (isinstance(res[i], px['CompartmentalSystem'])
+                              and list(res[i].compartment_names) == list(objs[i].compartment_names)
+                              and _sym(ode_amount) in set(res[i].amounts) and _sym(ACENT) not in set(res[i].amounts)
+                              and res[i].free_symbols == objs[i].free_symbols)
+                else:
+                    ok = res[i].symbol == _sym(want[i][0]) and res[i].expression == _rhs_expr(want[i][1])
+                if not ok:
+                    bad = i
+            if not ok:
+                F.add('subs', clause, f'subs({label}) gave {[repr(x) for x in res]}'
+                      + (f', statement #{bad} should be {_show([want[bad]])}' if bad is not None else ''))
+        except Exception as e:
+            F.add('subs', clause, f'subs({label}) raised {_exc(e)}')
+
+    if any(ACENT in _reads(x) for x in prog):
+        want = [rename(x, ACENT, ACENTX) for x in prog]
+        subs_check(CL_SUBS_FUNC, '{A_CENTRAL(t): A_CENTRALX(t)}', {_sym(ACENT): _sym(ACENTX)}, want, ACENTX)
+        subs_check(CL_SUBS_FUNC, "str keys {'A_CENTRAL(t)': 'A_CENTRALX(t)'}", {'A_CENTRAL(t)': 'A_CENTRALX(t)'},
+                   want, ACENTX)
+        # together with a symbol key that occurs in such a statement (and not in the ODE system)
+        other = sorted(set(y for x in prog if ACENT in _reads(x) for y in _reads(x)) - {ACENT}
+                       - set(y for x in prog if _is_ode(x) for y in _reads(x)))
+        if other:
+            want = [rename(x, other[0], 'Z') for x in want]
+            subs_check(CL_SUBS_FUNC, f'{{A_CENTRAL(t): A_CENTRALX(t), {other[0]}: Z}}',
+                       {_sym(ACENT): _sym(ACENTX), _sym(other[0]): _sym('Z')}, want, ACENTX)
+    pairs = [x[1] for x in prog if not _is_ode(x) and x[1][0] != 'pw' and len(x[1]) == 2 and x[1][0] != x[1][1]]
+    if pairs:
+        a, b = pairs[0]
+        want = [x if _is_ode(x) or x[1][0] == 'pw' or sorted(x[1]) != sorted((a, b)) else (x[0], ('Z',)) for x in prog]
+        subs_check(CL_SUBS_EXPR, f'{{{a} + {b}: Z}}', {_sym(a) + _sym(b): _sym('Z')}, want, None)
+
     # ---- remove_symbol_definitions -----------------------------------------------------------
     if not piecewise:
         _check_rsd(prog, objs, st, reach, vals0, F)
@@ -676,9 +835,14 @@ def _ode_programs(fam):
     """pre-ODE statements over lhs {CL,V,B}, the ODE, post-ODE statements over lhs {B,Y}"""
     pre_syms = fam.get('pre_syms', ('X', 'P', 'CL', 'V', 'B'))
     post_syms = fam.get('post_syms', (ACENT, 'B', 'E', 'CL'))
-    pre_stmts = [(l, r) for l in ('CL', 'V', 'B') for r in _rhs_choices(pre_syms, {})]
-    post_stmts = [(l, r) for l in ('B', 'Y') for r in _rhs_choices(post_syms, {})]
+    pre_stmts = [(l, r) for l in fam.get('pre_lhs', ('CL', 'V', 'B')) for r in _rhs_choices(pre_syms, {})]
+    post_stmts = [(l, r) for l in fam.get('post_lhs', ('B', 'Y')) for r in _rhs_choices(post_syms, {})]
     return pre_stmts, post_stmts
+
+
+def _ode_variants(roles, symbols=('S',)):
+    """ODE statements with the attributes `roles` (tuples of roles) set to the symbols, in order"""
+    return [('ODE', tuple(zip(rs, symbols))) for rs in roles]
 
 
 def _prog_size(prog):
@@ -722,7 +886,7 @@ def _df_worker(task):
             if len(pre) > fam['maxpre'] or (pre[:1] != root[:1]):
                 continue
             for post in posts:
-                run(pre + (('ODE',),) + post)
+                run(pre + (tuple(fam.get('ode_stmt', ('ODE',))),) + post)
     else:
         for prog in _subtree(root, fam):
             run(prog)
@@ -750,9 +914,28 @@ def _families(tier):
              bound='<=2 statements (lhs {CL,V,B}, ' + sums + '{X,CL,V,B}), a one-compartment ODE system with '
                    'output rate CL/V, <=1 statement (lhs {B,Y}, ' + sums + '{A_CENTRAL(t),B,E,CL})'),
     ]
+    single = [(r,) for r in ODE_ROLES]
+    g1 = dict(name='G1', ode=True, new=True, maxpre=2, maxpost=1, variants=_ode_variants(single),
+              pre_lhs=('S', 'B'), pre_syms=('X', 'S', 'B'), post_lhs=('Y',), post_syms=(ACENT, 'B'),
+              bound='<=2 statements (lhs {S,B}, ' + sums + '{X,S,B}), an ODE system (CENTRAL, Bolus(AMT), output rate '
+                    'CL/V) in which ONE of: dose amount, lag time, bioavailability, zero-order input, output rate of '
+                    'CENTRAL, the rate to and from a second compartment PERI, the amount of a second dose into PERI, '
+                    'lag time, bioavailability, zero-order input of PERI is the symbol S (10 systems), <=1 statement '
+                    '(lhs Y, ' + sums + '{A_CENTRAL(t),B})')
+    quick.append(g1)
     if tier == 'quick':
         return quick
+    double = [('lag', 'bio'), ('dose', 'input'), ('rate', 'q'), ('bio', 'plag'), ('pdose', 'pbio'), ('lag', 'pinput'),
+              ('q', 'pinput'), ('input', 'plag')]
     return quick[:2] + [
+        dict(g1, name='G1t', post_lhs=('B', 'Y'), post_syms=(ACENT, 'B', 'S', 'E'),
+             bound='as G1 with <=1 statement after the system with lhs {B,Y}, ' + sums + '{A_CENTRAL(t),B,S,E}'),
+        dict(g1, name='G2t', variants=_ode_variants(double, ('S', 'T')), pre_lhs=('S', 'T', 'B'),
+             pre_syms=('X', 'S', 'T', 'B'), post_syms=(ACENT, 'B', 'T'),
+             bound='<=2 statements (lhs {S,T,B}, ' + sums + '{X,S,T,B}), an ODE system with TWO attributes set to S and T '
+                   '(lag+bio, dose+input, rate+q, bio+plag, pdose+pbio, lag+pinput, q+pinput, input+plag), <=1 statement '
+                   '(lhs Y, ' + sums + '{A_CENTRAL(t),B,T})'),
+    ] + [
         dict(name='F1t', lhs=A4, leaves=L3, ubd=True, canon=True, maxlen=3,
              bound='all programs of <=3 statements with lhs symbols introduced in the order A,B,C,Y, ' + sums +
                    '{A,B,C,Y,X,P,E} (read before assignment = input)'),
@@ -775,7 +958,11 @@ def _families(tier):
 def _tasks(fam):
     if fam.get('ode'):
         pre_stmts, _ = _ode_programs(fam)
-        return [(fam, ())] + [(fam, (s,)) for s in pre_stmts]
+        out = []
+        for v in fam.get('variants', [None]):
+            f = fam if v is None else dict(fam, ode_stmt=v, variants=None)
+            out += [(f, ())] + [(f, (s,)) for s in pre_stmts]
+        return out
     # split the enumeration tree at depth <=2: inner nodes are single-program tasks, the nodes at the
     # split depth are whole-subtree tasks
     depth = max(0, min(2, fam['maxlen'] - 1))
@@ -800,8 +987,11 @@ def _run_pool(worker, tasks):
 def bounded_dataflow(tier):
     fams = _families(tier)
     tasks = []
-    for fam in reversed(fams):       # the families with the largest tasks first (load balance only)
+    for fam in reversed([f for f in fams if not f.get('new')]):   # the largest tasks first (load balance only)
         tasks += _tasks(fam)
+    for fam in fams:                 # families added later come last: the enumeration order of the others is kept
+        if fam.get('new'):
+            tasks += _tasks(fam)
     results = _run_pool(_df_worker, tasks)
     cases = nontrivial = 0
     fails = {}
@@ -822,7 +1012,7 @@ def bounded_dataflow(tier):
                 fails[key] = cand
     out_fails = []
     def as_case(prog, fid, clause):
-        return {'prog': [list(s) if _is_ode(s) else [s[0], list(s[1])] for s in prog], 'fid': fid, 'clause': clause}
+        return {'prog': _untup(prog), 'fid': fid, 'clause': clause}
 
     for (fid, clause), (_n, _s, detail, prog) in sorted(fails.items()):
         out_fails.append({'fid': fid, 'clause': clause, 'detail': detail,
